@@ -122,14 +122,13 @@ func (a *Arguments) checkOptions(opts []plugin.Option) ([]plugin.Option, error) 
 	cu.HandleOptions(params)
 	if cu.Features().EnableNestedStruct {
 		// In nested mode, if template is not 'slim', it is automatically converted to slim
-		if cu.Template() != "slim" || cu.Template() != "raw_struct" {
+		if cu.Template() != "slim" && cu.Template() != "raw_struct" {
 			found := false
-			for _, opt := range opts {
-				if opt.Name == "template" {
+			for i := range opts {
+				if opts[i].Name == "template" {
 					log.Printf("[WARN] EnableNestedStruct is only available under the \"slim\" and \"raw_struct\" template, so adapt the template to \"slim\"")
-					opt.Desc = "slim"
+					opts[i].Desc = "slim"
 					found = true
-					break
 				}
 			}
 			if !found {
